@@ -68,6 +68,24 @@ CHECKS.update({
         ref='DESIGN.md 2/C17'),
 })
 
+CHECKS.update({
+    'C03': dict(
+        technique='static analysis: path enumeration over the loop body of _wave_eval with a parity abstraction of z_cur/inputs, symbolic interval domain [0, z_cap-1] for waveform accesses, sibling-arm comparison under renaming, symbolic evaluation of the stimulus tables over {TMIN, t, TMAX}, guard sets of the capture loops',
+        text='Decides the parity invariant (z_cur & 1) == LUT(inputs) on all 16 loop-body paths including the overflow arm, in-bounds waveform accesses for every capacity >= 4, agreement of the four operand arms, the 8 stimulus cases of CPU and GPU assignment, and the final/initial reporting of both capture kernels.',
+        note='Not decided: float32 sentinel absorption (needed for "starts at the Boolean function of the initial values"), loop termination, well-formedness of input waveforms.',
+        ref='DESIGN.md 2/C03'),
+    'C07': dict(
+        technique='static analysis: table/column agreement of the three operand passes of SimOps.__init__, dominance/ordering lint on the loop nest (alloc inside per-op loop, free after it under c_reuse), structural rules on launch loops, GPU thread guards and store targets',
+        text='Decides that level test, reference counting and release all use the same four stem-substituted operand columns, the level bookkeeping, release-after-level, ordered level launches with range guards, and that a thread only writes its own output waveform or adds atomically.',
+        note='The step from these rules to "every operand is produced in an earlier level" is a two-line induction in DESIGN.md, not mechanised. Scratch-slot sharing by ops without outputs is not examined.',
+        ref='DESIGN.md 2/C07'),
+    'C08': dict(
+        technique='static analysis: structural pin/alloc/alias/size rules on SimOps.__init__; path-wise symbolic effect analysis of Heap.alloc/Heap.free (linear expressions over chunk sizes) proving conservation on all 13 paths',
+        text='Decides the map clauses (pins that are never removed, free discipline, capacity = allocated size, aliasing order, c_len after the last alloc) and, for the allocator, the necessary tiling invariant sum(chunk sizes) == current_size and the max_size update on every path.',
+        note='NOT decided: the full allocator clause over all alloc/free histories (no overlap, coalescing, first-fit choice, released-list order) - only path-wise necessary invariants; needs model checking / exploration (other family).',
+        ref='DESIGN.md 2/C08'),
+})
+
 NOT_YET = {
 }
 
